@@ -219,7 +219,34 @@ func executeOCSPCheck(ctx context.Context, cert, issuer *x509.Certificate, serve
 		return nil, GenericError{Err: errors.New("OCSP signature required")}
 	}
 
-	return ocsp.ParseResponseForCert(body, cert, issuer)
+	ocspResponse, err := ocsp.ParseResponseForCert(body, cert, issuer)
+	if err != nil {
+		return nil, err
+	}
+	if err := validateResponder(ocspResponse, issuer); err != nil {
+		return nil, GenericError{Err: err}
+	}
+	return ocspResponse, nil
+}
+
+// validateResponder checks that a response which is not signed by the issuer
+// itself is signed by a delegate the issuer authorized for OCSP signing.
+// ocsp.ParseResponseForCert only verifies that the embedded responder
+// certificate is signed by the issuer, which is true for every certificate the
+// CA ever issued, including the certificate being checked.
+//
+// Reference: RFC 6960 section 4.2.2.2
+func validateResponder(resp *ocsp.Response, issuer *x509.Certificate) error {
+	responder := resp.Certificate
+	if responder == nil || responder.Equal(issuer) {
+		return nil
+	}
+	for _, eku := range responder.ExtKeyUsage {
+		if eku == x509.ExtKeyUsageOCSPSigning {
+			return nil
+		}
+	}
+	return errors.New("OCSP response is signed by a certificate that is not authorized for OCSP signing")
 }
 
 func postRequest(ctx context.Context, req []byte, server string, httpClient *http.Client) (*http.Response, error) {
